@@ -104,7 +104,7 @@ def sounding(exp_staff):
 ACC = {None: None, 0: "n", 1: "s", -1: "f", 2: "ss", -2: "ff"}
 
 
-def to_mei(doc, with_ppq=False, attrs_as_children=True, ppq=None):
+def to_mei(doc, with_ppq=False, attrs_as_children=True, ppq=None, beams=None):
     """a minimal MEI 4 document: one staffDef per staff inside a staffGrp, measures with staff/layer/note|chord|rest|tuplet"""
     lines = ['<?xml version="1.0" encoding="UTF-8"?>', '<mei xmlns="http://www.music-encoding.org/ns/mei" meiversion="4.0.0">',
              '<meiHead><fileDesc><titleStmt><title>generated</title></titleStmt><pubStmt/></fileDesc></meiHead>',
@@ -155,11 +155,20 @@ def to_mei(doc, with_ppq=False, attrs_as_children=True, ppq=None):
                             run.append(layer[j])
                             total += layer[j].quarters()
                             j += 1
+                        beamed = beams is not None and all(x.dur >= 8 and x.kind in ("note", "chord") for x in run) and len(run) > 1
+                        if beamed and beams == "around_tuplets":
+                            lines.append('<beam xml:id="%s">' % nid("bm"))
                         lines.append('<tuplet xml:id="%s" num="%d" numbase="%d">' % (nid("t"), e.tuplet[0], e.tuplet[1]))
+                        if beamed and beams == "inside_tuplets":
+                            lines.append('<beam xml:id="%s">' % nid("bm"))
                     for ev in run:
                         lines.extend(_mei_event(ev, st, li, nid, open_tie, tie_els, with_ppq, ppq))
                     if e.tuplet:
+                        if beamed and beams == "inside_tuplets":
+                            lines.append('</beam>')
                         lines.append('</tuplet>')
+                        if beamed and beams == "around_tuplets":
+                            lines.append('</beam>')
                     k += len(run)
                 lines.append('</layer>')
             lines.append('</staff>')
